@@ -63,6 +63,7 @@ struct ModelItem
     std::string kind;
     ModelSpec spec;
     bool math = false, imports = false, issueProne = false;
+    bool unlinked = false; // variables refer to the model's units by name only (the state setUnits(name) leaves until linkUnits())
 };
 struct LibEntry
 {
@@ -436,7 +437,7 @@ CaseData generate(Src &src)
             } else if ((op.svc == RESOLVE || op.svc == FLATTEN) && src.flip(75)) {
                 cands = modelCandidates(i, [&](bool pool, size_t idx) {
                     if (pool) {
-                        return pp.modelKinds[idx] == 3 || pp.modelKinds[idx] == 1;
+                        return pp.modelKinds[idx] == 3 || pp.modelKinds[idx] == 1 || (op.svc == FLATTEN && pp.modelKinds[idx] == 0);
                     }
                     const Op &o = cd.ops[idx];
                     return o.svc == PARSE && o.refKind == 0 && (pp.docKinds[static_cast<size_t>(o.ref)] == 6 || pp.docKinds[static_cast<size_t>(o.ref)] == 1);
@@ -641,6 +642,10 @@ CaseData generate(Src &src)
         }
         m.math = specHasMath(m.spec);
         m.imports = !m.spec.imports.empty();
+        m.unlinked = (nOps + i) % 3 == 0; // no tape read of its own: saved tapes keep decoding to the same histories
+        if (m.unlinked) {
+            m.kind += ", units unlinked";
+        }
         cd.models.push_back(m);
     }
 
@@ -703,10 +708,93 @@ void collectMaths(const ComponentPtr &c, const std::string &indent, std::vector<
 
 const int kDump = DUMP_ORDERED | DUMP_RAW_MATH | DUMP_PTR_IMPORTS;
 
+// What linkUnits() / hasUnlinkedUnits() expose is observable state of a model too: for every variable, whether its units are
+// the model's own Units object of that name, a by-name placeholder (standard units, or not linked yet), or someone else's.
+std::string linkageOf(const ModelPtr &m)
+{
+    if (m == nullptr) {
+        return "";
+    }
+    std::string s = std::string("linkage hasUnlinkedUnits=") + (m->hasUnlinkedUnits() ? "1" : "0") + "\n";
+    std::function<void(const ComponentPtr &)> walk = [&](const ComponentPtr &c) {
+        for (size_t i = 0; i < c->variableCount(); ++i) {
+            auto v = c->variable(i);
+            auto u = v->units();
+            std::string tag = "none";
+            if (u != nullptr) {
+                tag = u->parent() != nullptr ? "units-of-another-owner:" + u->name() : "by-name:" + u->name();
+                for (size_t k = 0; k < m->unitsCount(); ++k) {
+                    if (m->units(k) == u) {
+                        tag = "model-units#" + std::to_string(k);
+                        break;
+                    }
+                }
+            }
+            s += " link " + c->name() + ":" + v->name() + " -> " + tag + "\n";
+        }
+        for (size_t i = 0; i < c->componentCount(); ++i) {
+            walk(c->component(i));
+        }
+    };
+    for (size_t i = 0; i < m->componentCount(); ++i) {
+        walk(m->component(i));
+    }
+    return s;
+}
+
+std::string dumpFull(const ModelPtr &m)
+{
+    return dumpModel(m, kDump) + linkageOf(m);
+}
+
+// Edits everything reachable from a model (used on a RESULT to see whether the argument or an earlier result shares anything with it).
+void deepMutate(const ModelPtr &m)
+{
+    if (m == nullptr) {
+        return;
+    }
+    m->setName(m->name() + "_mutated");
+    m->setId("vp_mutated_id");
+    for (size_t k = 0; k < m->unitsCount(); ++k) {
+        auto u = m->units(k);
+        u->setName(u->name() + "_mutated");
+        if (u->unitCount() > 0) {
+            u->removeUnit(size_t(0));
+        }
+    }
+    m->addUnits(Units::create("vp_added_units"));
+    std::function<void(const ComponentPtr &)> walk = [&](const ComponentPtr &c) {
+        c->setName(c->name() + "_mutated");
+        c->setMath("");
+        for (size_t i = 0; i < c->variableCount(); ++i) {
+            auto v = c->variable(i);
+            v->setName(v->name() + "_mutated");
+            v->setInitialValue("42");
+            v->setUnits("vp_added_units");
+            v->setInterfaceType("public_and_private");
+        }
+        for (size_t i = 0; i < c->resetCount(); ++i) {
+            c->reset(i)->setOrder(c->reset(i)->order() + 7);
+            c->reset(i)->setTestValue("");
+        }
+        c->addVariable(Variable::create("vp_added_variable"));
+        for (size_t i = 0; i < c->componentCount(); ++i) {
+            walk(c->component(i));
+        }
+    };
+    for (size_t i = 0; i < m->componentCount(); ++i) {
+        walk(m->component(i));
+    }
+    if (m->unitsCount() > 1) {
+        m->removeUnits(size_t(0));
+    }
+    m->linkUnits();
+}
+
 Snapshot snapModel(const ModelPtr &m)
 {
     Snapshot s;
-    s.raw = dumpModel(m, kDump);
+    s.raw = dumpFull(m);
     s.hasCanon = true;
     if (m != nullptr) {
         for (size_t i = 0; i < m->componentCount(); ++i) {
@@ -818,7 +906,24 @@ struct Exec
     {
         res.resize(cd.ops.size());
         for (const auto &m : cd.models) {
-            pool.push_back(buildApi(m.spec).model);
+            ModelPtr model = buildApi(m.spec).model;
+            if (m.unlinked) {
+                std::function<void(const ComponentPtr &)> walk = [&](const ComponentPtr &c) {
+                    for (size_t i = 0; i < c->variableCount(); ++i) {
+                        auto u = c->variable(i)->units();
+                        if (u != nullptr) {
+                            c->variable(i)->setUnits(u->name());
+                        }
+                    }
+                    for (size_t i = 0; i < c->componentCount(); ++i) {
+                        walk(c->component(i));
+                    }
+                };
+                for (size_t i = 0; i < model->componentCount(); ++i) {
+                    walk(model->component(i));
+                }
+            }
+            pool.push_back(model);
         }
     }
 
@@ -868,10 +973,11 @@ struct Exec
 
     ModelPtr argModel(const Op &op)
     {
-        if (op.refKind == 0) {
-            return pool[static_cast<size_t>(op.ref) % pool.size()];
+        ModelPtr m = op.refKind == 0 ? pool[static_cast<size_t>(op.ref) % pool.size()] : res[static_cast<size_t>(op.ref)].model;
+        if (m != nullptr && op.svc != RESOLVE && op.svc != ANNOTATE && m->hasUnlinkedUnits()) {
+            info[std::string("unlinked-input:") + kShort[op.svc]] = "1";
         }
-        return res[static_cast<size_t>(op.ref)].model;
+        return m;
     }
 
     void rec(const std::string &run, int op, const std::string &part, Snapshot s)
@@ -943,7 +1049,7 @@ struct Exec
             checkModelArg(i, op, before.raw);
             PrinterPtr p = fresh ? Printer::create() : (printer != nullptr ? printer : (printer = Printer::create()));
             std::string text = p->printModel(m, op.autoIds);
-            std::string after = dumpModel(m, kDump);
+            std::string after = dumpFull(m);
             if (after != before.raw) {
                 fail("C12.input-modified|Printer", firstDiff(before.raw, after));
             }
@@ -960,7 +1066,7 @@ struct Exec
             checkModelArg(i, op, before.raw);
             ValidatorPtr v = fresh ? Validator::create() : (validator != nullptr ? validator : (validator = Validator::create()));
             v->validateModel(m);
-            std::string after = dumpModel(m, kDump);
+            std::string after = dumpFull(m);
             if (after != before.raw) {
                 fail("C12.input-modified|Validator", firstDiff(before.raw, after));
             }
@@ -1000,7 +1106,7 @@ struct Exec
             if (!run.empty() && !fresh && am == amBefore) {
                 info["am-not-replaced:" + run + ":" + std::to_string(i)] = "1"; // localisation only: the analyser handed out the object it had before
             }
-            std::string after = dumpModel(m, kDump);
+            std::string after = dumpFull(m);
             if (after != before.raw) {
                 fail("C12.input-modified|Analyser", firstDiff(before.raw, after));
             }
@@ -1064,7 +1170,7 @@ struct Exec
             checkModelArg(i, op, before.raw);
             ImporterPtr imp = fresh ? makeImporter() : (importer != nullptr ? importer : (importer = makeImporter()));
             ModelPtr flat = imp->flattenModel(m);
-            std::string after = dumpModel(m, kDump);
+            std::string after = dumpFull(m);
             if (after != before.raw) {
                 fail("C12.input-modified|Importer::flattenModel", firstDiff(before.raw, after));
             }
@@ -1073,13 +1179,47 @@ struct Exec
                 out.holdsModel = true;
                 out.heldModel = s.raw;
             }
+            const std::string issuesText = dumpIssues(imp);
+            monitor(imp, FLATTEN);
+            // Independence of result and argument (the header promises "a new ModelPtr"): not the same object, and editing
+            // everything reachable from one result changes neither the argument, nor an earlier result, nor what the
+            // next call returns. The edits are made on a result of an extra call that nobody else uses.
+            if (flat != nullptr && flat == m) {
+                fail("C12.result-is-argument|Importer::flattenModel", "flattenModel() returned the model it was given (" + opText(cd, static_cast<size_t>(i)) + ")");
+            } else if (flat != nullptr) {
+                ModelPtr extra = imp->flattenModel(m);
+                if (extra == nullptr || dumpFull(extra) != s.raw) {
+                    fail("C12.repeat|Importer::flattenModel|model", "a second flattenModel() of the same model differs (" + opText(cd, static_cast<size_t>(i)) + "): " + firstDiff(s.raw, dumpFull(extra)));
+                } else if (extra == flat || extra == m) {
+                    fail("C12.result-is-argument|Importer::flattenModel", "a second flattenModel() returned an object handed out before");
+                } else {
+                    deepMutate(extra);
+                    std::string argNow = dumpFull(m), firstNow = dumpFull(flat);
+                    if (argNow != before.raw) {
+                        fail("C12.result-aliases-argument|Importer::flattenModel", "editing the flattened model changed the argument: " + firstDiff(before.raw, argNow));
+                    } else if (firstNow != s.raw) {
+                        fail("C12.result-aliases-earlier-result|Importer::flattenModel", "editing one flattened model changed another: " + firstDiff(s.raw, firstNow));
+                    } else {
+                        ModelPtr third = imp->flattenModel(m);
+                        std::string t = dumpFull(third);
+                        if (t != s.raw) {
+                            fail("C12.repeat-after-result-mutation|Importer::flattenModel", firstDiff(s.raw, t));
+                        }
+                    }
+                    if (!run.empty()) {
+                        info["result-mutated-then-input-compared"] = "1";
+                    }
+                }
+            }
             rec(run, i, "arg", std::move(before));
             rec(run, i, "model", std::move(s));
-            rec(run, i, "issues", snapText(dumpIssues(imp)));
-            monitor(imp, FLATTEN);
+            rec(run, i, "issues", snapText(issuesText));
             out.model = flat;
             if (!run.empty()) {
                 info[flat != nullptr ? "flatten:ok" : "flatten:null"] = "1";
+                if (m != nullptr && !m->hasImports()) {
+                    info["flatten:no-imports"] = "1";
+                }
             }
             break;
         }
@@ -1137,7 +1277,7 @@ struct Exec
             const Res &r = res[i];
             const Svc svc = cd.ops[i].svc;
             if (r.holdsModel) {
-                std::string now = dumpModel(r.model, kDump);
+                std::string now = dumpFull(r.model);
                 if (now != r.heldModel) {
                     fail(std::string("C12.held-result|") + (svc == PARSE ? "Parser::parseModel()" : "Importer::flattenModel()"), "the model returned by op" + std::to_string(i) + " changed while the caller held it: " + firstDiff(r.heldModel, now));
                 }
@@ -1261,6 +1401,20 @@ void childMain(void *p)
         ex.hold = false;
         ex.execOp(ii, FORCE_SHARED, "H2", again);
         ex.hold = keepHold;
+        if (cd.ops[i].svc == PARSE && again.model != nullptr && ex.res[i].model != nullptr) {
+            // two parses of one document give two independent models
+            if (again.model == ex.res[i].model) {
+                ex.fail("C12.result-aliases-earlier-result|Parser", "parseModel() returned the object it returned for the previous call");
+            } else {
+                std::string was = dumpFull(ex.res[i].model);
+                deepMutate(again.model);
+                std::string now = dumpFull(ex.res[i].model);
+                if (now != was) {
+                    ex.fail("C12.result-aliases-earlier-result|Parser", "editing the model of the second parse changed the model of the first: " + firstDiff(was, now));
+                }
+                ex.info["result-mutated-then-input-compared"] = "1";
+            }
+        }
     }
     ex.checkHeld();
     ex.flush("H");
@@ -1758,8 +1912,12 @@ void run(Src &tapeSrc, Case &c)
 
     // classes known after execution
     for (const auto &kv : j.H.info) {
-        if (kv.first.compare(0, 8, "am-type:") == 0 || kv.first.compare(0, 8, "flatten:") == 0) {
+        if (kv.first.compare(0, 8, "am-type:") == 0 || kv.first.compare(0, 8, "flatten:") == 0 || kv.first == "result-mutated-then-input-compared") {
             c.cls(kv.first);
+        }
+        if (kv.first.compare(0, 15, "unlinked-input:") == 0) {
+            c.cls("input-has-unlinked-units");
+            c.cls("input-has-unlinked-units:" + kv.first.substr(15));
         }
     }
     {
